@@ -243,3 +243,296 @@ Section RK.
       + rewrite (skipn_app_len _ _ 32%nat (modn32_len _)). reflexivity.
   Qed.
 End RK.
+
+(* ------------------------------------------------------------------ *)
+(* fixed part *)
+
+Lemma dec_rest_is oc L : forall b, dec_rest oc L b = decode_rest oc L b.
+Proof.
+  induction L as [|k L IH]; intros b; [reflexivity|]. cbn [dec_rest decode_rest].
+  destruct (dec_f oc k b) as [[v r]|]; [|reflexivity]. rewrite IH. reflexivity.
+Qed.
+
+Lemma nonterm_lay_ok L : nonterminal L = true -> lay_ok L = true.
+Proof.
+  induction L as [|k L IH]; [reflexivity|]. cbn [nonterminal forallb]. intros H.
+  apply andb_true_iff in H. destruct H as [H1 H2]. cbn [lay_ok].
+  destruct L; [reflexivity|]. rewrite H1. apply IH. exact H2.
+Qed.
+
+Lemma dec_rest_wf oc L : forall b vs r,
+  wf_bytes b -> dec_rest oc L b = Some (vs, r) -> wf_bytes r.
+Proof.
+  induction L as [|k L IH]; intros b vs r Hw; cbn [dec_rest].
+  - intros H; inversion H; subst. assumption.
+  - destruct (dec_f oc k b) as [[v r1]|] eqn:E; [|discriminate].
+    destruct (dec_rest oc L r1) as [[vs' r']|] eqn:E2; [|discriminate].
+    intros H; inversion H; subst.
+    destruct (field_dec_valid oc k b v r1 Hw E) as (_ & Hw1 & _).
+    apply (IH _ _ _ Hw1 E2).
+Qed.
+
+Lemma wf_encode_stream_inv rs :
+  wf_bytes (encode_stream rs) -> Forall (fun r => wf_bytes (snd r)) rs.
+Proof.
+  induction rs as [|[t v] rs IH]; intros H; [constructor|].
+  rewrite enc_record_cons in H. apply wf_app in H. destruct H as [_ H].
+  apply wf_app in H. destruct H as [_ H]. apply wf_app in H. destruct H as [Hv H].
+  constructor; [exact Hv|apply IH; exact H].
+Qed.
+
+Section Msg.
+  Variable oc : bytes -> bool.
+  Variable M : tlvmsg.
+  Hypothesis Hok : tm_ok M = true.
+
+  Notation ks := (tm_known M).
+  Notation K := (tm_kinds M).
+
+  Lemma ok_pre : nonterminal (tm_pre M) = true.
+  Proof.
+    unfold tm_ok in Hok. apply andb_true_iff in Hok. destruct Hok as [H _].
+    apply andb_true_iff in H. tauto.
+  Qed.
+
+  Lemma ok_cond i mask Lc : tm_cond M = Some (i, mask, Lc) -> nonterminal Lc = true.
+  Proof.
+    intros E. unfold tm_ok in Hok. apply andb_true_iff in Hok. destruct Hok as [H _].
+    apply andb_true_iff in H. destruct H as [_ H]. rewrite E in H. exact H.
+  Qed.
+
+  Lemma ok_always t : In t (always_types ks) ->
+    t < two64 /\ lookup_rk ks t = Some RKVar.
+  Proof.
+    intros Hin. unfold tm_ok in Hok. apply andb_true_iff in Hok. destruct Hok as [_ H].
+    rewrite forallb_forall in H. specialize (H t Hin). apply andb_true_iff in H.
+    destruct H as [H1 H2]. split; [apply N.ltb_lt; assumption|].
+    destruct (lookup_rk ks t) as [[]|]; try discriminate. reflexivity.
+  Qed.
+
+  Lemma K_kind t : lookup_kind K t = option_map rk_vkind (lookup_rk ks t).
+  Proof. apply lookup_kind_tm. Qed.
+
+  Lemma rec_norm_fst r : fst (rec_norm ks r) = fst r.
+  Proof. unfold rec_norm. destruct (lookup_rk ks (fst r)); reflexivity. Qed.
+
+  (* a record returned by the stream decoder, after normalisation, is a valid
+     record of a message value *)
+  Lemma rec_okb_norm r :
+    record_ok K true r -> wf_bytes (snd r) -> rec_check oc ks r = true ->
+    rec_okb oc M (rec_norm ks r) = true.
+  Proof.
+    destruct r as [t v]. unfold record_ok, rec_check, rec_norm, rec_okb. cbn [fst snd len_bound].
+    intros (Ht & Hl & Hv) Hw Hc. rewrite K_kind in Hv.
+    destruct (lookup_rk ks t) as [k|] eqn:E; cbn [fst snd option_map] in *.
+    - rewrite E. destruct (norm_props oc k v Hw Hv) as (Hw' & Hv' & Hl' & Hi & Hc').
+      rewrite Hi, Hc', Hc. rewrite (proj1 (value_okb_spec k _) Hv').
+      rewrite (proj2 (wf_bytesb_spec _) Hw'), (proj2 (beq_spec _ _) eq_refl).
+      assert (H1 : (t <? two64) = true) by (apply N.ltb_lt; assumption).
+      assert (H2 : (blen (rk_norm k v) <=? max_record_size) = true).
+      { apply N.leb_le. unfold blen in *. lia. }
+      rewrite H1, H2. reflexivity.
+    - rewrite E. rewrite (proj2 (wf_bytesb_spec _) Hw).
+      assert (H1 : (t <? two64) = true) by (apply N.ltb_lt; assumption).
+      assert (H2 : (blen v <=? max_record_size) = true) by (apply N.leb_le; assumption).
+      rewrite H1, H2. reflexivity.
+  Qed.
+
+  Lemma rec_okb_spec r :
+    rec_okb oc M r = true ->
+    record_ok K true r /\ wf_bytes (snd r) /\ rec_check oc ks r = true /\ rec_norm ks r = r.
+  Proof.
+    destruct r as [t v]. unfold record_ok, rec_check, rec_norm, rec_okb. cbn [fst snd len_bound].
+    intros H. apply andb_true_iff in H. destruct H as [H H4].
+    apply andb_true_iff in H. destruct H as [H H3].
+    apply andb_true_iff in H. destruct H as [H1 H2].
+    apply N.ltb_lt in H1. apply N.leb_le in H2. apply wf_bytesb_spec in H3.
+    rewrite K_kind. destruct (lookup_rk ks t) as [k|]; cbn [option_map].
+    - apply andb_true_iff in H4. destruct H4 as [H4 H6].
+      apply andb_true_iff in H4. destruct H4 as [H4 H5].
+      apply value_okb_spec in H4. apply beq_spec in H6. rewrite H6. repeat split; auto.
+    - repeat split; auto.
+  Qed.
+
+  Lemma always_okb t : In t (always_types ks) -> rec_okb oc M (t, []) = true.
+  Proof.
+    intros Hin. destruct (ok_always t Hin) as [Ht Hk]. unfold rec_okb. cbn [fst snd].
+    rewrite Hk. assert (H1 : (t <? two64) = true) by (apply N.ltb_lt; assumption).
+    rewrite H1. reflexivity.
+  Qed.
+
+  Lemma always_known t : In t (always_types ks) -> rec_known ks (t, []) = true.
+  Proof.
+    intros Hin. destruct (ok_always t Hin) as [_ Hk]. unfold rec_known. cbn [fst]. rewrite Hk.
+    reflexivity.
+  Qed.
+
+  (* what the stream decoder returns *)
+  Lemma stream_facts r2 rs :
+    wf_bytes r2 -> decode_stream K true r2 = Ok rs ->
+    r2 = encode_stream rs /\ sorted_from 0 rs /\ Forall (record_ok K true) rs /\
+    Forall (fun r => wf_bytes (snd r)) rs.
+  Proof.
+    intros Hw H. unfold decode_stream in H.
+    apply (dec_loop_sound K (tm_kinds_no_bigsize ks)) in H; [|assumption].
+    destruct H as (-> & Hs & Hf). repeat split; auto. apply wf_encode_stream_inv. assumption.
+  Qed.
+
+  Definition post (rs : list tlv_record) : list tlv_record :=
+    ensure_all (always_types ks) (map (rec_norm ks) rs).
+
+  Lemma post_valid rs :
+    sorted_from 0 rs -> Forall (record_ok K true) rs -> Forall (fun r => wf_bytes (snd r)) rs ->
+    forallb (rec_check oc ks) rs = true ->
+    sorted_fromb 0 (post rs) = true /\ forallb (rec_okb oc M) (post rs) = true /\
+    forallb (fun t => has_type t (post rs)) (always_types ks) = true.
+  Proof.
+    intros Hs Hf Hw Hc. unfold post. split; [|split].
+    - apply sorted_fromb_spec. apply ensure_all_sorted.
+      apply sorted_map_types; [apply rec_norm_fst|assumption].
+    - apply forallb_forall. apply Forall_forall. apply ensure_all_forall.
+      + apply Forall_forall. intros t Hin. apply always_okb. assumption.
+      + apply Forall_forall. intros r Hin. apply in_map_iff in Hin. destruct Hin as (r0 & <- & Hin).
+        rewrite Forall_forall in Hf, Hw. rewrite forallb_forall in Hc.
+        apply rec_okb_norm; auto.
+    - apply forallb_forall. intros t Hin. apply ensure_all_has. assumption.
+  Qed.
+
+  (* the optional part *)
+  Lemma cond_valid vs b cs r :
+    wf_bytes b -> decode_cond oc M vs b = Some (cs, r) ->
+    valid_cond oc M vs cs = true /\ wf_bytes r /\
+    exists e, encode_cond M vs cs = Some e /\ (length e + length r <= length b)%nat /\
+              forall s, decode_cond oc M vs (e ++ s) = Some (cs, s).
+  Proof.
+    intros Hw. unfold decode_cond, valid_cond, encode_cond.
+    destruct (tm_cond M) as [[[i mask] Lc]|] eqn:Ec.
+    2:{ intros H; inversion H; subst. repeat split; auto. exists []. repeat split; auto. }
+    destruct (flag_set vs i mask).
+    2:{ intros H; inversion H; subst. repeat split; auto. exists []. repeat split; auto. }
+    intros H. pose proof (dec_rest_wf _ _ _ _ _ Hw H) as Hwr.
+    rewrite dec_rest_is in *.
+    destruct (decode_rest_valid oc Lc b cs r Hw H) as (Hv & e & He & Hl & _).
+    split; [assumption|]. split; [assumption|]. exists e. split; [assumption|]. split; [assumption|].
+    pose proof (ok_cond _ _ _ Ec) as Hn.
+    destruct (layout_roundtrip_rest oc Lc (nonterm_lay_ok _ Hn) cs Hv) as (e' & He' & _ & Hr).
+    rewrite He in He'. inversion He'; subst e'. intros s. rewrite dec_rest_is. apply Hr. exact Hn.
+  Qed.
+
+  (* Lemma A: whatever Decode returns is a valid message value *)
+  Lemma decode_valid b v :
+    wf_bytes b -> decode_tm oc M b = Some v -> valid_tv oc M v = true.
+  Proof.
+    intros Hw. unfold decode_tm.
+    destruct (dec_rest oc (tm_pre M) b) as [[vs r1]|] eqn:E1; [|discriminate].
+    pose proof (dec_rest_wf _ _ _ _ _ Hw E1) as Hw1.
+    destruct (decode_cond oc M vs r1) as [[cs r2]|] eqn:E2; [|discriminate].
+    destruct (cond_valid _ _ _ _ Hw1 E2) as (Hvc & Hw2 & _).
+    destruct (decode_stream K true r2) as [rs|] eqn:E3; [|discriminate].
+    destruct (forallb (rec_check oc ks) rs) eqn:E4; [|discriminate].
+    intros H; inversion H; subst v. clear H.
+    destruct (stream_facts _ _ Hw2 E3) as (_ & Hs & Hf & Hwr).
+    destruct (post_valid rs Hs Hf Hwr E4) as (P1 & P2 & P3).
+    rewrite dec_rest_is in E1.
+    destruct (decode_rest_valid oc _ _ _ _ Hw E1) as (Hv & _).
+    unfold valid_tv. fold (post rs). rewrite Hv, Hvc, P1, P2, P3. reflexivity.
+  Qed.
+
+  (* Lemma C: a complete valid value round-trips *)
+  Lemma roundtrip v :
+    valid_tv oc M v = true -> complete_tv M v = true ->
+    exists e, encode_tm M v = Some e /\ decode_tm oc M e = Some v.
+  Proof.
+    destruct v as [[vs cs] rs]. unfold valid_tv, complete_tv. intros Hv Hc.
+    apply andb_true_iff in Hv. destruct Hv as [Hv V5].
+    apply andb_true_iff in Hv. destruct Hv as [Hv V4].
+    apply andb_true_iff in Hv. destruct Hv as [Hv V3].
+    apply andb_true_iff in Hv. destruct Hv as [V1 V2].
+    assert (Hout : out_recs M rs = rs).
+    { unfold out_recs. destruct (tm_mode M); [apply filter_all; assumption|reflexivity]. }
+    pose proof ok_pre as Hn.
+    destruct (layout_roundtrip_rest oc _ (nonterm_lay_ok _ Hn) vs V1) as (e1 & He1 & _ & Hr1).
+    specialize (Hr1 Hn).
+    (* conditional part *)
+    assert (Hcnd : exists e2, encode_cond M vs cs = Some e2 /\
+                              forall s, decode_cond oc M vs (e2 ++ s) = Some (cs, s)).
+    { unfold valid_cond in V2. unfold encode_cond, decode_cond.
+      destruct (tm_cond M) as [[[i mask] Lc]|] eqn:Ec.
+      2:{ destruct cs; [|discriminate]. exists []. split; auto. }
+      destruct (flag_set vs i mask).
+      2:{ destruct cs; [|discriminate]. exists []. split; auto. }
+      pose proof (ok_cond _ _ _ Ec) as Hnc.
+      destruct (layout_roundtrip_rest oc Lc (nonterm_lay_ok _ Hnc) cs V2) as (e2 & He2 & _ & Hr2).
+      exists e2. split; [assumption|]. intros s. rewrite dec_rest_is. apply Hr2. exact Hnc. }
+    destruct Hcnd as (e2 & He2 & Hr2).
+    exists (e1 ++ e2 ++ encode_stream rs). unfold encode_tm. rewrite He1, He2, Hout.
+    split; [reflexivity|]. unfold decode_tm. rewrite dec_rest_is, Hr1, Hr2.
+    (* the stream *)
+    apply sorted_fromb_spec in V3.
+    assert (Hall : Forall (fun r => record_ok K true r /\ wf_bytes (snd r) /\
+                                    rec_check oc ks r = true /\ rec_norm ks r = r) rs).
+    { apply Forall_forall. intros r Hin. rewrite forallb_forall in V4. apply rec_okb_spec. auto. }
+    assert (Hdec : decode_stream K true (encode_stream rs) = Ok rs).
+    { unfold decode_stream. apply dec_loop_complete; [|exact V3|lia].
+      eapply Forall_impl; [|exact Hall]. cbn. tauto. }
+    rewrite Hdec.
+    assert (Hchk : forallb (rec_check oc ks) rs = true).
+    { apply forallb_forall. intros r Hin. rewrite Forall_forall in Hall. apply Hall. assumption. }
+    rewrite Hchk.
+    assert (Hmap : map (rec_norm ks) rs = rs).
+    { rewrite <- (map_id rs) at 2. apply map_ext_in. intros r Hin.
+      rewrite Forall_forall in Hall. apply Hall. assumption. }
+    rewrite Hmap, ensure_all_id by assumption. reflexivity.
+  Qed.
+
+  (* Lemma B: dropping what Encode does not write keeps the value valid *)
+  Lemma out_valid vs cs rs :
+    valid_tv oc M (vs, cs, rs) = true ->
+    valid_tv oc M (vs, cs, out_recs M rs) = true /\ complete_tv M (vs, cs, out_recs M rs) = true.
+  Proof.
+    unfold valid_tv, complete_tv, out_recs. destruct (tm_mode M); [|tauto].
+    intros Hv.
+    apply andb_true_iff in Hv. destruct Hv as [Hv V5].
+    apply andb_true_iff in Hv. destruct Hv as [Hv V4].
+    apply andb_true_iff in Hv. destruct Hv as [Hv V3].
+    rewrite Hv. split; [|apply forallb_filter].
+    cbn [andb]. apply andb_true_iff. split; [apply andb_true_iff; split|].
+    - apply sorted_fromb_spec. apply sorted_filter. apply sorted_fromb_spec. assumption.
+    - apply forallb_filter_sub. assumption.
+    - apply forallb_forall. intros t Hin. rewrite forallb_forall in V5. specialize (V5 t Hin).
+      unfold has_type in *. apply existsb_exists in V5. destruct V5 as (r & Hr & Ht).
+      apply existsb_exists. exists r. split; [|assumption]. apply filter_In. split; [assumption|].
+      apply N.eqb_eq in Ht. destruct (ok_always t Hin) as [_ Hk].
+      unfold rec_known. rewrite Ht, Hk. reflexivity.
+  Qed.
+
+  Lemma out_idem rs : out_recs M (out_recs M rs) = out_recs M rs.
+  Proof. unfold out_recs. destruct (tm_mode M); [apply filter_idem|reflexivity]. Qed.
+
+  Lemma encode_out vs cs rs :
+    encode_tm M (vs, cs, out_recs M rs) = encode_tm M (vs, cs, rs).
+  Proof. unfold encode_tm. rewrite out_idem. reflexivity. Qed.
+
+  (* canonical fixpoint after ONE re-encode; the only loss is out_recs *)
+  Theorem tlvmsg_fixpoint b vs cs rs :
+    wf_bytes b -> decode_tm oc M b = Some (vs, cs, rs) ->
+    exists e, encode_tm M (vs, cs, rs) = Some e /\
+              decode_tm oc M e = Some (vs, cs, out_recs M rs) /\
+              encode_tm M (vs, cs, out_recs M rs) = Some e.
+  Proof.
+    intros Hw Hd. pose proof (decode_valid _ _ Hw Hd) as Hv.
+    destruct (out_valid _ _ _ Hv) as [Hv' Hc'].
+    destruct (roundtrip _ Hv' Hc') as (e & He & Hde).
+    exists e. rewrite <- encode_out. auto.
+  Qed.
+End Msg.
+
+(* exactly the unknown records are lost, and only by Repack messages *)
+Lemma out_recs_in M r rs :
+  In r (out_recs M rs) <->
+  In r rs /\ (tm_mode M = Merge \/ rec_known (tm_known M) r = true).
+Proof.
+  unfold out_recs. destruct (tm_mode M).
+  - rewrite filter_In. split; [intros [H1 H2]; auto|intros [H1 [H2|H2]]; [discriminate|auto]].
+  - split; [auto|tauto].
+Qed.
